@@ -64,6 +64,7 @@ loop(f"{RP}:_get_line_to_branchless_code_object_coverage", 0,
 
 # ==== bounded stand-in for get_coverage_report (closures, inspect, config: outside the verifier's subset) =====================
 import itertools  # noqa: E402
+import math  # noqa: E402
 
 from pyvc.bounded import Part, guarded  # noqa: E402
 
@@ -154,10 +155,34 @@ def _check_report(part: Part, tier, seed):
                     r = ExecutionResult()
                     r.execution_trace = t
                     results.append(r)
+                # what the suite covers, computed from the specification of its tests (not through analyze_results)
+                want = ExecutionTrace()
+                for popt, cexec, lexec in suite_spec:
+                    for pid_, dv in enumerate(popt):
+                        if dv is not None:
+                            want.executed_predicates[pid_] = want.executed_predicates.get(pid_, 0) + 1
+                            want.true_distances[pid_] = min(want.true_distances.get(pid_, math.inf), dv[0])
+                            want.false_distances[pid_] = min(want.false_distances.get(pid_, math.inf), dv[1])
+                    want.executed_code_objects.update(cexec)
+                    want.covered_line_ids.update(lexec)
+
+                def frozen(rs):
+                    return [(dict(r.execution_trace.executed_predicates), dict(r.execution_trace.true_distances),
+                             dict(r.execution_trace.false_distances), list(r.execution_trace.executed_code_objects),
+                             list(r.execution_trace.covered_line_ids)) for r in rs]
+                before = frozen(results)
                 for metrics in metrics_all:
                     part.case(bool(preds or lns))
                     rep = get_coverage_report(_Suite(results), sp, metrics)
-                    merged = ff.analyze_results(results)
+                    if frozen(results) != before:
+                        part.violation("a line is shown as covered exactly when the suite covers it", "report-changes-test-results",
+                                       {"tests(pred distances, executed code objects, covered line ids)": repr(suite_spec),
+                                        "note": "building the report changed the cached execution results of the suite's test cases; "
+                                                "a later report of a suite that shares a test case then shows what that suite does not cover",
+                                        "before": repr(before)[:300], "after": repr(frozen(results))[:300]},
+                                       target="pynguin.ga.fitness_metrics:analyze_results")
+                        before = frozen(results)
+                    merged = want
                     bad = _judge(rep, merged, sp, metrics, nlines, config, ff)
                     if bad:
                         part.violation(bad[0], bad[1], {
